@@ -38,5 +38,67 @@ Example C02_example_wf :
     [(HKnown H_Host, [104]); (HKnown H_ContentLength, [51]); (HCustom [120;45;97], [49]); (HCustom [120;45;97], [50])].
 Proof. vm_compute. repeat split. Qed.
 
+(* 2. Field names are matched ASCII-case-insensitively, and nothing else is identified: two names give the same
+   HeaderType exactly when they are equal up to ASCII case.  Looking a name up in the parsed header list returns the
+   values of exactly the fields whose names equal it up to ASCII case: all of them, unchanged, in arrival order
+   (`get_all`), respectively the first of them (`get`). *)
+Theorem C02_names_case_insensitive :
+  (forall a b : bytes, ascii_lower a = ascii_lower b <-> hname_of a = hname_of b) /\
+  (forall (n : bytes) (hs : list gheader),
+     hget_all (hname_of n) (denote_headers hs) = map gh_value (filter (fun h => ci_eqb n (gh_name h)) hs)) /\
+  (forall (n : bytes) (hs : list gheader),
+     hget (hname_of n) (denote_headers hs) = hd_error (map gh_value (filter (fun h => ci_eqb n (gh_name h)) hs))).
+Proof. exact names_case_insensitive. Qed.
+
+Example C02_example_names :
+  hname_of [67;79;78;84;69;78;84;45;116;121;112;101] = HKnown H_ContentType /\        (* CONTENT-type *)
+  hname_of [88;45;70;111;111] = hname_of [120;45;102;79;79] /\                        (* X-Foo, x-fOO *)
+  hname_of [88;45;70;111;111] <> hname_of [88;45;70;111;111;32] /\                   (* "X-Foo" vs "X-Foo " *)
+  hget_all (hname_of [88;45;97]) (r_headers (denote ipv4_parse C02_example_greq {| p_ip := [49]; p_port := 1 |}))
+    = [[49]; [50]].
+Proof. vm_compute. repeat split. discriminate. Qed.
+
+(* 5. Round trip.  `Headers::iter` (hsort) is a stable sort: a permutation that keeps the relative order of the
+   fields of every single name. *)
+Theorem C02_hsort_stable :
+  forall l : headers,
+    Permutation.Permutation (hsort l) l /\
+    (forall n, filter (fun h => hname_eqb n (fst h)) (hsort l) = filter (fun h => hname_eqb n (fst h)) l) /\
+    (forall n, hget_all n (hsort l) = hget_all n l) /\ (forall n, hget n (hsort l) = hget n l).
+Proof. exact hsort_stable. Qed.
+
+(* For EVERY request r the parser can return (from any bytes b, valid or not, any peer, any address parser) and any
+   following bytes rest': parsing what `Vec<u8>::from(r)` writes succeeds and returns r' with the same method, uri,
+   query, version, body, address and, for every field name, the same values in the same order; precisely, r' is r
+   with its header list in Headers::iter order.  The bytes left unread are rest', preceded by one CRLF exactly when r
+   has no header field (HttpReqSpec.roundtrip_residue): see C02_roundtrip_residue below. *)
+Theorem C02_roundtrip :
+  forall (ipp : bytes -> option bytes) (p : peer) (b : bytes) (r : request) (rest rest' : bytes),
+    parse_request_flat ipp p b = Ok (r, rest) ->
+    exists r', parse_request_flat ipp p (serialize_request r ++ rest') = Ok (r', roundtrip_residue r ++ rest') /\
+               req_equiv r' r /\ r_headers r' = hsort (r_headers r).
+Proof. exact roundtrip. Qed.
+
+(* with at least one header field the serialised request is consumed exactly *)
+Theorem C02_roundtrip_exact :
+  forall (ipp : bytes -> option bytes) (p : peer) (b : bytes) (r : request) (rest rest' : bytes),
+    parse_request_flat ipp p b = Ok (r, rest) -> r_headers r <> [] ->
+    exists r', parse_request_flat ipp p (serialize_request r ++ rest') = Ok (r', rest') /\ req_equiv r' r.
+Proof. exact roundtrip_exact. Qed.
+
+(* "GET / HTTP/1.1 CRLF CRLF" is serialised as "GET / HTTP/1.1 CRLF CRLF CRLF": the request parsed back is equal, one
+   CRLF stays unread after it (observed on the real code as well: req_roundtrip in the harness prints this `ser`). *)
+Theorem C02_roundtrip_residue :
+  exists b r, parse_request_flat ipv4_parse {| p_ip := [49;46;50;46;51;46;52]; p_port := 80 |} b = Ok (r, []) /\
+              parse_request_flat ipv4_parse {| p_ip := [49;46;50;46;51;46;52]; p_port := 80 |} (serialize_request r)
+              = Ok (r, CRLF).
+Proof. exact roundtrip_residue_witness. Qed.
+
 Print Assumptions C02_parse_faithful.
 Print Assumptions C02_example_wf.
+Print Assumptions C02_names_case_insensitive.
+Print Assumptions C02_example_names.
+Print Assumptions C02_hsort_stable.
+Print Assumptions C02_roundtrip.
+Print Assumptions C02_roundtrip_exact.
+Print Assumptions C02_roundtrip_residue.
